@@ -5,6 +5,8 @@ go 1.26.8
 require (
 	github.com/anishathalye/porcupine v1.3.0
 	github.com/cuteLittleDevil/go-jt808/protocol v1.12.0
+	github.com/cuteLittleDevil/go-jt808/attachment v0.0.0
+	github.com/cuteLittleDevil/go-jt808/service v0.0.0
 	github.com/cuteLittleDevil/go-jt808/shared v1.5.0
 	github.com/cuteLittleDevil/go-jt808/terminal v0.0.0
 	golang.org/x/tools v0.50.0
@@ -17,3 +19,7 @@ replace github.com/cuteLittleDevil/go-jt808/protocol => /repo/protocol
 replace github.com/cuteLittleDevil/go-jt808/shared => /repo/shared
 
 replace github.com/cuteLittleDevil/go-jt808/terminal => /repo/terminal
+
+replace github.com/cuteLittleDevil/go-jt808/service => /repo/service
+
+replace github.com/cuteLittleDevil/go-jt808/attachment => /repo/attachment
